@@ -14,6 +14,7 @@ RULES = {
     "T1": T.rule_T1,
     "T2": T.rule_T2,
     "T3": T.rule_T3,
+    "T4": R.rule_T4,
     "T5": E.rule_T5,
     "T6": T.rule_T6,
     "T8": C.rule_T8,
@@ -29,6 +30,7 @@ RULES = {
     "D3": S.rule_D3,
     "D4": B.rule_D4,
     "W1": S.rule_W1,
+    "G3": R.rule_G3,
     "G4": S.rule_G4,
     "G1c": G.rule_G1c,
     "G1r": G.rule_G1r,
@@ -135,6 +137,40 @@ PROPS = {
         "from a literal or an absolute position (D4), and build mutates earlier state only through get_from_jump_table_mut on its own "
         "placeholders (W1). That each program computes the same result as when built alone is not decided.",
     },
+    "C06": {
+        "rules": ["A1"],
+        "claim": "Decides the per-instruction clause of C06: on every Ok-returning path of each of the 55 instruction functions "
+        "(path-partitioned abstract interpretation of their MIR against the GarnishData contract, callees summarised bottom-up) the "
+        "operand-stack, value-stack and frame deltas and the jump result are the fixed constants of spec/arity.json - binary -2+1, "
+        "unary -1+1, and/or -1 then +1 only on the non-jump edge, apply -2/+1v/+1f or -2+1, end_expression restoring the caller's "
+        "mark +1. Three work-list helpers are trusted summaries (named in the evidence). The dynamic depth of whole programs and the "
+        "builder's per-construct templates are not decided.",
+    },
+    "C08": {
+        "rules": ["A4", "A5", "A1", "G3", "T2"],
+        "claim": "Decides the structural clauses of C08 on all instruction functions: on every path the host's defer_op is called at most "
+        "once, with the Instruction constant that dispatches to that function, with (type, address) of the left operand then the "
+        "right operand in source order (A4, A5); after a declining host exactly one unit is pushed and after an accepting host none "
+        "(A1 arity on the declined / accepted edges); and for every one of the 21x21 operand type pairs of every instruction function "
+        "the dedicated UnsupportedOpTypes error cannot reach the function's Err return (G3). Other error sources (data-impl errors) "
+        "are not decided.",
+    },
+    "C10": {
+        "rules": ["T4", "T9", "A1"],
+        "claim": "Decides three clauses of C10: (T4) the seven testing instructions (?> !> && || ^^ !! ??) classify all 21 value types "
+        "identically with exactly {False, Unit} false - computed from the behaviour of their MIR under each type fact (21 contexts each, "
+        "441 for ^^), not from the spelling of their arms; (A1) && / || push a boolean only on the edge that does not jump; (T9) the "
+        "right operand of && / || and the arm of ?> / !> are compiled out of line behind the jump, re-joined through a jump-table "
+        "entry, and the && / || right root ends in Tis. Order and at-most-one-arm in else-chains are not decided.",
+    },
+    "C17": {
+        "rules": ["A4", "A1", "T2", "T10"],
+        "claim": "Decides the per-occurrence clauses of C17: in `resolve` the host callback is reached only on paths where the input-value "
+        "lookup pushed nothing, at most once, with the symbol stored at the instruction's own operand, and a declining host leaves "
+        "exactly one unit (A4 + A1); in apply the host's apply callback receives the external's number and the right operand, once; "
+        "identifiers are compiled to Resolve carrying the symbol of their own text and properties to Put (T2 wiring, T10 attribution). "
+        "Counts and order across a whole program are not decided.",
+    },
     "C09": {
         "rules": ["N1", "N2", "N3"],
         "claim": "Decides the no-wrap/no-trap/finiteness clauses of C09 on the code of impl GarnishNumber for SimpleNumber and its helpers: "
@@ -164,6 +200,10 @@ TECHNIQUE = {
     "C04": "per-Definition handler attribution table from resolved HIR; path-partitioned typestate (instruction pending / balanced) over the builder's MIR",
     "C05": "path-partitioned typestate over the builder's MIR; interprocedural origin (def-use) analysis of every instruction operand, jump-table entry and expression value through parameters, closures and struct fields",
     "C20": "interprocedural origin analysis of every index the builder emits or reports; who-may-write table",
+    "C06": "path-partitioned abstract interpretation of the instruction functions' MIR with stack-depth counters against a GarnishData contract model; bottom-up callee summaries",
+    "C08": "abstract interpretation with host-event traces and symbolic operands (defer_op once, argument order, operation id); per type-pair error-code propagation with type-fact refinement for UnsupportedOpTypes escape",
+    "C10": "abstract interpretation of the seven testing instructions under each of the 21 type facts (behavioural truth tables); builder out-of-line operand check on resolved HIR",
+    "C17": "abstract interpretation of resolve / apply with host-event traces (once, after input lookup, right symbol / external); operator wiring and attribution tables",
     "C09": "MIR scan of the number implementation: raw integer BinaryOp/overflow asserts, unchecked std integer calls, overflow-flag dataflow to a branch, FloatToInt casts, dominator check of finiteness tests over Float constructions",
     "C12": "constant/predicate wiring check on the four comparison functions; comparable type-pair arm table",
 }
